@@ -254,7 +254,11 @@ def forward_may(bf, starts, init, node_fn=None, edge_fn=None):
         b = work.pop()
         outs = set()
         for v in state[b]:
-            outs.add(node_fn(b, v) if node_fn else v)
+            r = node_fn(b, v) if node_fn else v
+            if isinstance(r, (set, frozenset)):
+                outs |= r       # a node may split a value into several (callee summaries)
+            else:
+                outs.add(r)
         for s in bf.cfg.succ[b]:
             vals = set()
             for v in outs:
